@@ -178,7 +178,28 @@ func main() {
 		})
 		dump := guard(func() string { return s.StringUp() })
 		hash := guard(func() string { return fmt.Sprint(s.HashValue()) })
-		fmt.Fprintf(w, "(case %s struct (cfg %s %v %v) (bcfg %v %v) %s %s %s %s %s %s %s %s)\n", c.id, c.cfg.dialect, c.cfg.lower, false,
-			c.cfg.comment, c.cfg.plural, c.decl, c.expect, q(ddl), q(ddlFlip), q(load), q(dump), q(hash), c.extra)
+		// C03: the same models loaded twice, and the models against sqlize's own dump of them, must diff to nothing
+		diffOf := func(mk func(z *sqlize.Sqlize) error) (string, string) {
+			a, b := sqlize.NewSqlize(sopts...), sqlize.NewSqlize(sopts...)
+			r := guard(func() string {
+				if err := a.FromObjects(objs...); err != nil {
+					return "error:" + strings.SplitN(err.Error(), "\n", 2)[0]
+				}
+				if err := mk(b); err != nil {
+					return "error:" + strings.SplitN(err.Error(), "\n", 2)[0]
+				}
+				b.Diff(*a)
+				return "ok"
+			})
+			if r != "ok" {
+				return r, r
+			}
+			return guard(func() string { return b.StringUp() }), guard(func() string { return b.StringDown() })
+		}
+		selfUp, selfDown := diffOf(func(z *sqlize.Sqlize) error { return z.FromObjects(objs...) })
+		dumpUp, dumpDown := diffOf(func(z *sqlize.Sqlize) error { return z.FromString(dump) })
+		fmt.Fprintf(w, "(case %s struct (cfg %s %v %v) (bcfg %v %v) %s %s %s %s %s %s %s %s (c03 %s %s %s %s))\n", c.id, c.cfg.dialect, c.cfg.lower, false,
+			c.cfg.comment, c.cfg.plural, c.decl, c.expect, q(ddl), q(ddlFlip), q(load), q(dump), q(hash), c.extra,
+			q(selfUp), q(selfDown), q(dumpUp), q(dumpDown))
 	}
 }
